@@ -162,10 +162,9 @@ def rules(ctx: Ctx) -> None:
                "the provider is consulted after the graph look-up of the same pair and only when that look-up found nothing (a table created by an earlier "
                "statement is in the graph; the provider may know an older table of the same name)")
     # ---- R04.4 --------------------------------------------------------------------------------------
-    from . import c13
-
-    sub = Ctx(ctx.pid, ctx.tier, prog, ctx.repo)
-    c13.rules(sub)
-    for o in sub.obligations:
-        if o.rule == "R13.5":
-            ctx.obligations.append(replace(o, rule="R04.4"))
+    common.import_rules(ctx, "C13", {"R13.5": "R04.4"})
+    # ---- R04.5 / R04.6 ----------------------------------------------------------------------------------
+    # same-named columns of different sub-queries (an alias re-used by a later statement) stay distinct nodes: Column equality compares the
+    # owner object (= R06.4); session entries do not outlive a failed run (= R12.1)
+    common.import_rules(ctx, "C06", {"R06.4": "R04.5"}, key_filter=lambda o: o.key == "column-equality-includes-the-owner-object")
+    common.import_rules(ctx, "C12", {"R12.1": "R04.6"})
